@@ -125,6 +125,25 @@ def gen_jobs(ctx):
         calls += [{"op": "int_gauge", "as": "ig", "opts": {"name": "ig", "help": "i"}}, {"op": "set", "obj": "ig", "v": -7}]
         calls += [{"op": "register", "reg": "r", "obj": o} for o in ("cv", "g", "hv", "ig")]
         jobs.append({"setup": calls, "src": {"reg": "r"}, "tag": "library"})
+    # D. size: strings and families far larger than any internal buffer an encoder might use (8 KiB, 32 KiB, 64 KiB), placed
+    #    before, between and after small families
+    def big(n, pat):
+        return (pat * (n // len(pat) + 1))[:n]
+    small = lambda k: {"name": "s%d" % k, "help": "h", "type": "COUNTER", "metrics": [{"labels": [["l", "v"]], "counter": F(float(k))}]}
+    sizes = [(700, "ab\\\n\"é"), (9000, "ab\\\n\"é"), (3000, "測試値"), (70000, "xyz ")] if ctx.quick else [(8191, "a"), (8192, "a"), (8193, "é"), (9000, "ab\\\n\"é"), (3000, "測試値"), (33000, "q\n"), (70000, "xyz "), (300000, "0123456789")]
+    for n, pat in sizes:
+        # up to ~1 kB the TLA+ parser reads the text itself; beyond that (its character-level recursion is quadratic) the text must
+        # equal the parser-verified text of the same families with a short placeholder in place of the long string, the placeholder
+        # replaced by the escaped long string (escaping is a per-character homomorphism: \\ -> \\\\, newline -> \\n, in label values " -> \\")
+        for st, huge in ((big(n, pat), None),) if n <= 1000 else ((big(n, pat), "big"), ("PLACEHOLDER_%d_" % n, "small")):
+            tag = "large" if huge is None else "huge-" + huge
+            extra = {} if huge is None else {"pair": n, "big": big(n, pat), "placeholder": "PLACEHOLDER_%d_" % n}
+            jobs.append(dict({"src": {"lit": [small(1), {"name": "bighelp", "help": st, "type": "GAUGE", "metrics": [{"labels": [["l", "v"]], "gauge": F(1.5)}]}, small(2)]}, "tag": tag, "where": "help"}, **extra))
+            jobs.append(dict({"src": {"lit": [small(1), small(2), {"name": "biglabel", "help": "h", "type": "COUNTER", "metrics": [{"labels": [["a", "x"], ["l", st], ["z", "y"]], "counter": F(2.0)}, {"labels": [["a", "x2"], ["l", "short"], ["z", "y"]], "counter": F(3.0)}]}, small(3)]}, "tag": tag, "where": "label"}, **extra))
+    for nm in ((700,) if ctx.quick else (700, 5000)):
+        many = {"name": "many", "help": "h", "type": "COUNTER", "metrics": [{"labels": [["i", "%06d" % k], ["pad", "p" * 40]], "counter": F(float(k))} for k in range(nm)]}
+        jobs.append({"src": {"lit": [small(1), small(2), many, small(3), {"name": "hh", "help": "x", "type": "HISTOGRAM", "metrics": [{"labels": [], "hist": {"count": 3, "sum": F(4.5), "b": [[F(1.0), 1], [F(2.0), 3]]}}]}]}, "tag": "large"})
+        jobs.append({"src": {"lit": [many, small(1)]}, "tag": "large"})
     out = []
     for i, j in enumerate(jobs):
         calls = list(j.get("setup", []))
@@ -137,7 +156,7 @@ def gen_jobs(ctx):
         calls.append(dict({"op": "text_encode", "mode": "encode", "prefix": "# preé\n"}, **src))
         calls.append(dict({"op": "text_encode", "mode": "utf8", "prefix": "x"}, **src))
         calls.append(dict({"op": "text_encode", "mode": "to_string"}, **src))
-        out.append({"id": i, "calls": calls, "tag": j["tag"]})
+        out.append(dict({"id": i, "calls": calls}, **{k: v for k, v in j.items() if k in ("tag", "where", "pair", "big", "placeholder")}))
     # encode, edit the same family objects in place, encode again (state cached inside the data model must not leak)
     for i in range(10 if ctx.quick else 200):
         t = rnd.choice(["COUNTER", "GAUGE", "HISTOGRAM", "SUMMARY"])
@@ -156,6 +175,7 @@ def gen_jobs(ctx):
 def judge_outputs(ctx, jobs, res):
     """byte-level clauses decided here; returns records for the TLA+ parser"""
     recs = []
+    huge, small_text = {}, {}
     for j in jobs:
         rs = res[j["id"]]
         fj, e1, e2, e3 = rs[-4], rs[-3], rs[-2], rs[-1]
@@ -187,8 +207,23 @@ def judge_outputs(ctx, jobs, res):
         if text and not text.endswith("\n"):
             ctx.violation("no-final-newline", "the output does not end with a newline", rp)
             continue
+        if j["tag"] == "huge-big":
+            huge[(j["pair"], j["where"])] = (j, text)
+            continue
+        if j["tag"] == "huge-small":
+            small_text[(j["pair"], j["where"])] = text
         exp, fin = expected_of(fj["ok"])
         recs.append({"id": j["id"], "lines": text.split("\n")[:-1], "exp": exp, "fin": fin, "job": j})
+    for key, (j, text) in huge.items():
+        st = small_text.get(key)
+        if st is None:
+            continue        # the companion was itself rejected above
+        esc = j["big"].replace("\\", "\\\\").replace("\n", "\\n")
+        if j["where"] == "label":
+            esc = esc.replace('"', '\\"')
+        if st.replace(j["placeholder"], esc) != text:
+            ctx.violation("huge-string", "a %d-character %s is not rendered as the text of the same families with a short string in its place would be (the short rendering is verified by the TextFormat parser); lengths %d vs %d" % (
+                len(j["big"]), "help text" if j["where"] == "help" else "label value", len(st.replace(j["placeholder"], esc)), len(text)), {"calls": j["calls"]})
     return recs
 
 
